@@ -762,6 +762,7 @@ func TestVerifC09(t *testing.T) {
 	}
 	sPerm := v.Stream("kperm", "k_mismatches", 600)
 	sRand := v.Stream("krand", "k_mismatches", 500)
+	sReal := v.Stream("kreal", "k_mismatches", 500)
 	worlds := map[string]*k09World{}
 	worldIDs := func(scheme string, n int, idset string) *k09World {
 		key := fmt.Sprintf("%s/%d/%s", scheme, n, idset)
@@ -1032,8 +1033,300 @@ func TestVerifC09(t *testing.T) {
 		w.kauriCase(sRand, "kauri-membership-growth", me, []*k09Block{B, C}, evs)
 		w.startN = 0
 	}
+	// (c) Kauri's OWN wait timer (real time): two consecutive rounds, the second one started before the first
+	// round's timer is due; the first timer then expires inside the second round (it must be recognised as stale),
+	// the second round's contributions arrive after that and before the second timer is due.
+	k09RealTimerStream(v, sReal, world)
+
 	v.Close("one evaluation = one stimulus sequence on a real Kauri node (event loop drained after every stimulus); non-trivial = a certificate was emitted or an aggregate was handed to the parent")
 	if len(v.fails) > 0 {
 		t.Logf("oracle failures: %d", len(v.fails))
 	}
+}
+
+// ---------------------------------------------------------------------------------------------
+// real wait timers
+
+type k09RealPlan struct {
+	n, me   int
+	first   [][]int // signer groups contributed in the first round (view 5, block B)
+	second  [][]int // signer groups contributed in the second round (view 6, block C), after the stale expiry
+	comment string
+}
+
+// k09RealTimerStream lets the node arm its own timers (tree wait time W = 400 ms, real clock) over two consecutive
+// rounds. Margins: round 2 starts W/2 after round 1; the harness waits until the first timer event has been
+// processed, delivers round 2's contributions and accepts the run only if that was finished within 0.8 W of
+// the start of round 2 and before a second timer event (time.Sleep / AfterFunc never fire early, so round 2's
+// own timer cannot have expired); otherwise the run is discarded and repeated (at most 4 attempts; a discarded
+// run is counted, never judged). The rounds of the different plans run concurrently.
+func k09RealTimerStream(v *verifOut, s *verifStream, world func(string, int) *k09World) {
+	plans := []k09RealPlan{
+		{4, 1, [][]int{{2, 4}, {3}}, [][]int{{2}, {3}}, "root of n=4, replica 4 silent in round 2: the quorum needs the root's own vote"},
+		{4, 1, [][]int{{2}, {3}}, [][]int{{3}, {2}}, "root of n=4, other order"},
+		{7, 1, [][]int{{2, 4, 5}, {3, 6, 7}}, [][]int{{2, 4, 5}, {3}}, "root of n=7, replicas 6 and 7 silent in round 2"},
+		{7, 1, [][]int{{2, 4, 5}, {3, 6, 7}}, [][]int{{3, 6}, {2, 4}}, "root of n=7, replicas 5 and 7 silent in round 2"},
+		{7, 2, [][]int{{4}, {5}}, [][]int{{4}, {5}}, "inner node 2 of n=7: the aggregate for the parent must contain its own vote"},
+		{7, 3, [][]int{{6}, {7}}, [][]int{{7}, {6}}, "inner node 3 of n=7"},
+	}
+	type prepared struct {
+		plan   k09RealPlan
+		w      *k09World
+		own    [2]hotstuff.QuorumSignature
+		evs    []k09Ev // the stimuli in model terms (timers stamped with the view in which they were armed)
+		first  []k09Ev
+		second []k09Ev
+	}
+	var preps []*prepared
+	for _, pl := range plans {
+		w := world(crypto.NameECDSA, pl.n)
+		B, C := w.blocks["B"], w.blocks["C"]
+		pr := &prepared{plan: pl, w: w}
+		pr.own[0], _ = w.sig(w.genuine(pl.me, B))
+		pr.own[1], _ = w.sig(w.genuine(pl.me, C))
+		mk := func(groups [][]int, view uint64, blk *k09Block) []k09Ev {
+			var out []k09Ev
+			for _, g := range groups {
+				es := make([]k09Elem, len(g))
+				for i, id := range g {
+					es[i] = w.genuine(id, blk)
+				}
+				sig, syms := w.sig(es...)
+				out = append(out, k09Ev{kind: 'C', id: w.id(g[0]), view: view, sig: sig, syms: syms, label: "real-timer"})
+			}
+			return out
+		}
+		pr.first, pr.second = mk(pl.first, 5, B), mk(pl.second, 6, C)
+		preps = append(preps, pr)
+	}
+	done := make(chan struct{}, len(preps))
+	for _, pr := range preps {
+		go func(pr *prepared) {
+			defer func() { done <- struct{}{} }()
+			for attempt := 1; attempt <= 4; attempt++ {
+				if k09RealTimerRound(v, s, pr.w, pr.plan, pr.own, pr.first, pr.second, attempt) {
+					return
+				}
+				v.Count("kauri-real-timer:window-missed-run-discarded")
+			}
+			v.Note("kauri real-timer plan never met its timing window in 4 attempts (machine too loaded): " + pr.plan.comment)
+		}(pr)
+	}
+	for range preps {
+		<-done
+	}
+}
+
+// k09RealTimerRound runs one plan; false = the timing window was missed (nothing recorded).
+func k09RealTimerRound(v *verifOut, s *verifStream, w *k09World, pl k09RealPlan, own [2]hotstuff.QuorumSignature, first, second []k09Ev, attempt int) bool {
+	B, C := w.blocks["B"], w.blocks["C"]
+	meID := w.id(pl.me)
+	positions := make([]hotstuff.ID, w.n)
+	for i := range positions {
+		positions[i] = hotstuff.ID(w.ids[i])
+	}
+	tr := tree.NewSimple(hotstuff.ID(meID), 2, positions)
+	height := tr.ReplicaHeight()
+	W := 400 * time.Millisecond
+	tr.SetTreeHeightWaitTime(W / time.Duration(2*(height-1)))
+	W = tr.WaitTime()
+	cfg := w.configN(pl.me, w.n, core.WithKauriTree(tr))
+	sender := &k09Sender{remote: map[hotstuff.Hash]*hotstuff.Block{}}
+	el := eventloop.New(w.logger, 1000)
+	bc := blockchain.New(el, w.logger, sender)
+	bc.Store(B.blk)
+	bc.Store(C.blk)
+	base, err := crypto.New(cfg, w.scheme)
+	if err != nil {
+		panic(err)
+	}
+	k := NewKauri(w.logger, el, cfg, bc, cert.NewAuthority(cfg, bc, base), sender)
+	k.initDone = true
+	type qcSeen struct {
+		hash int
+		view uint64
+		qc   hotstuff.QuorumCert
+	}
+	var cur []qcSeen
+	eventloop.Register(el, func(m hotstuff.NewViewMsg) {
+		if qc, ok := m.SyncInfo.QC(); ok {
+			q := qcSeen{view: uint64(qc.View()), qc: qc}
+			if blk := w.byHash[qc.BlockHash()]; blk != nil {
+				q.hash = blk.id
+			}
+			cur = append(cur, q)
+		}
+	})
+	var stamps []uint64 // the views carried by the timer events, in the order they were handled
+	eventloop.Register(el, func(e WaitTimerExpiredEvent) { stamps = append(stamps, uint64(e.currentView)) })
+	ctx := context.Background()
+	drain := func() {
+		for el.Tick(ctx) {
+		}
+	}
+	subtree := tr.SubTree()
+	sub := make([]uint64, len(subtree))
+	for i, x := range subtree {
+		sub[i] = uint64(x)
+	}
+	var evT, evS, obsT []string
+	type obsRec struct {
+		sends []k09Sent
+		qcs   []qcSeen
+		blk   *k09Block
+	}
+	var recs []obsRec
+	record := func(e k09Ev) {
+		evT, evS = append(evT, e.term(meID)), append(evS, e.short())
+		blk := w.byHash[k.blockHash]
+		recs = append(recs, obsRec{append([]k09Sent(nil), sender.sent...), append([]qcSeen(nil), cur...), blk})
+		sender.sent, cur = nil, nil
+	}
+	waitTimers := func(want int, limit time.Duration) bool {
+		deadline := time.Now().Add(limit)
+		for len(stamps) < want && time.Now().Before(deadline) {
+			drain()
+			time.Sleep(time.Millisecond)
+		}
+		drain()
+		return len(stamps) >= want
+	}
+	deliver := func(e k09Ev) {
+		el.AddEvent(&kauripb.Contribution{ID: uint32(e.id), View: e.view, Signature: hotstuffpb.QuorumSignatureToProto(e.sig)})
+		drain()
+		record(e)
+	}
+
+	// round 1
+	_ = k.Aggregate(&hotstuff.ProposeMsg{ID: hotstuff.ID(w.ids[0]), Block: B.blk}, hotstuff.NewPartialCert(own[0], B.blk.Hash()))
+	drain()
+	record(k09Ev{kind: 'B', blk: B, view: 5})
+	for _, e := range first {
+		deliver(e)
+	}
+	time.Sleep(W / 2)
+	if len(stamps) != 0 {
+		return false
+	}
+	// round 2, W/2 after round 1
+	t2 := time.Now()
+	_ = k.Aggregate(&hotstuff.ProposeMsg{ID: hotstuff.ID(w.ids[0]), Block: C.blk}, hotstuff.NewPartialCert(own[1], C.blk.Hash()))
+	drain()
+	record(k09Ev{kind: 'B', blk: C, view: 6})
+	// the first round's timer expires inside round 2
+	if !waitTimers(1, 10*W) {
+		return false
+	}
+	record(k09Ev{kind: 'T', view: 5}) // armed in view 5
+	for _, e := range second {
+		deliver(e)
+	}
+	if time.Since(t2) > W*8/10 || len(stamps) != 1 {
+		return false // too late: round 2's own timer may be due
+	}
+	// round 2's own timer
+	if !waitTimers(2, 10*W) {
+		return false
+	}
+	record(k09Ev{kind: 'T', view: 6})
+
+	// ---- evaluation (single-threaded from here on) ----
+	refAgg := map[uint64]bool{}
+	var fails []func(meta any)
+	nqc := 0
+	for i, r := range recs {
+		sendT := make([]string, len(r.sends))
+		for j, x := range r.sends {
+			present, syms, ver := w.decode(x.sig, r.blk)
+			sendT[j] = fmt.Sprintf("(%s, %s)", gN(x.view), k09OptSigs(present, syms))
+			if present {
+				if ok, why := k09Genuine(w, syms, r.blk); !(ok && ver) {
+					what := fmt.Sprintf("stimulus %d: aggregate handed to the parent: verifies=%v %s", i, ver, why)
+					fails = append(fails, func(meta any) { w.v.Oracle(false, "kauri.aggregate:does-not-verify", what, meta) })
+				}
+			}
+		}
+		qcT := make([]string, len(r.qcs))
+		for j, q := range r.qcs {
+			var qb *k09Block
+			if q.hash >= 1 {
+				qb = w.all[q.hash-1]
+			}
+			_, syms, _ := w.decode(q.qc.Signature(), qb)
+			qcT[j] = fmt.Sprintf("(Q %s %s %s)", gN(uint64(q.hash)), gN(q.view), k09SigsTerm(syms))
+			nqc++
+			ok, why := k09Genuine(w, syms, qb)
+			if !(ok && len(syms) >= w.q && w.verifier.VerifyQuorumCert(q.qc) == nil) {
+				what := fmt.Sprintf("stimulus %d: emitted QC does not verify: %s", i, why)
+				fails = append(fails, func(meta any) { w.v.Oracle(false, "kauri.qc:does-not-verify", what, meta) })
+			}
+		}
+		obsT = append(obsT, fmt.Sprintf("(%s, %s)", gList(sendT), gList(qcT)))
+	}
+	// exactness in the second round (stimuli after its start, before its own timer): own vote + the contributions
+	start2 := 1 + len(first) + 1 // index of the stale-timer stimulus
+	refAgg[meID] = true
+	for j, e := range second {
+		for _, sg := range e.syms {
+			refAgg[sg.lab] = true
+		}
+		r := recs[start2+1+j]
+		expect := len(refAgg) >= w.q
+		if got := len(r.qcs) > 0; got != expect {
+			fp := "kauri.collect:qc-without-quorum"
+			if expect {
+				fp = "kauri.collect:quorum-present-no-qc"
+			}
+			what := fmt.Sprintf("second round, contribution %d: certificate expected=%v emitted=%v: own vote + contributions = %d distinct valid signers (quorum %d); the only timer that expired in this round was the previous round's (its event carried view %d)", j, expect, got, len(refAgg), w.q, stamps[0])
+			fails = append(fails, func(meta any) { w.v.Oracle(false, fp, what, meta) })
+		}
+	}
+	// what the second round hands to the parent (when its own timer expires, or earlier when the whole subtree
+	// answered) must be the aggregate including the node's own vote; the stale timer must not hand anything on
+	if n := len(recs[start2].sends); n != 0 {
+		what := fmt.Sprintf("the previous round's wait timer (event view %d) made the node hand its aggregate to the parent in the new round", stamps[0])
+		fails = append(fails, func(meta any) { w.v.Oracle(false, "kauri.aggregate:wrong-content-or-time", what, meta) })
+	}
+	handed := 0
+	for _, r := range recs[start2+1:] {
+		for _, x := range r.sends {
+			handed++
+			_, syms, _ := w.decode(x.sig, r.blk)
+			okc := len(syms) == len(refAgg)
+			for _, sg := range syms {
+				if !refAgg[sg.lab] {
+					okc = false
+				}
+			}
+			if !okc {
+				what := fmt.Sprintf("second round: the aggregate handed to the parent is %s, expected the %d signers own vote + contributions", k09SigsTerm(syms), len(refAgg))
+				fails = append(fails, func(meta any) { w.v.Oracle(false, "kauri.aggregate:wrong-content-or-time", what, meta) })
+			}
+		}
+	}
+	if handed != 1 {
+		what := fmt.Sprintf("second round: %d aggregates handed to the parent, expected exactly one", handed)
+		fails = append(fails, func(meta any) { w.v.Oracle(false, "kauri.aggregate:wrong-content-or-time", what, meta) })
+	}
+	present, syms, _ := w.decode(k.aggContrib, w.byHash[k.blockHash])
+	finAgg := k09OptSigs(present, syms)
+	snd := make([]uint64, len(k.senders))
+	for i, x := range k.senders {
+		snd[i] = uint64(x)
+	}
+	meta := map[string]any{"stream": "kauri-real-timer", "plan": pl.comment, "scheme": w.scheme, "n": w.n, "quorum": w.q, "node": meID, "subtree": sub,
+		"wait_time_ms": W.Milliseconds(), "second_round_started_after_ms": (W / 2).Milliseconds(), "attempt": attempt,
+		"timer_event_views_in_order": stamps, "stimuli": evS, "observed_per_stimulus": obsT, "final_aggregate": finAgg, "final_aggSent": k.aggSent, "final_senders": snd}
+	v.Seen(fmt.Sprintf("KR|%d|%d|%s", w.n, pl.me, strings.Join(evT, ";")), true, meta)
+	v.Count("kauri-real-timer:runs")
+	if len(fails) == 0 {
+		v.Oracle(true, "", "", nil)
+	}
+	for _, f := range fails {
+		f(meta)
+	}
+	leaf := len(tr.ReplicaChildren()) == 0
+	v.Case(s, fmt.Sprintf("(%s, %s, %s, %s, %s, %s, (%s, %s, %s))", w.members, gNs(sub), gBool(leaf), gNs([]uint64{uint64(B.id), uint64(C.id)}),
+		gList(evT), gList(obsT), finAgg, gBool(k.aggSent), gNs(snd)), meta)
+	return true
 }
